@@ -107,12 +107,17 @@ def render_job(seed):
         sql0, sql1, dbml0, dbml1 = db0.sql, db1.sql, db0.dbml, db1.dbml
     except Exception as e:  # noqa: BLE001
         return {'fails': [('rendering with comments raises ' + O.classify(e), None)], 'spec': with_c}
-    # SQL: same statements with and without comments
+    # SQL: same statements with and without comments (where the independent reader can tokenise the script)
+    from harness import sql_oracle as SO
     try:
+        if not SO.hygienic(spec):
+            raise StopIteration
         s0 = [{k: v for k, v in st.items() if k != 'comments'} for st in DR.read(sql0)]
         s1 = [{k: v for k, v in st.items() if k != 'comments'} for st in DR.read(sql1)]
         if s0 != s1:
             fails.append(('comment text became part of an SQL statement (statements differ with/without comments)', sql1))
+    except StopIteration:
+        pass
     except DR.DDLError as e:
         fails.append(('SQL with comments cannot be read back: ' + str(e), sql1))
     # every emitted comment line carries the marker; removing marker lines gives the comment-free text
